@@ -374,6 +374,18 @@ class Assembled(AArr):
     def __setitem__(self, key, value):
         key = key if isinstance(key, tuple) else (key,)
         key = tuple(key) + (slice(None),) * (self.ndim - len(key))
+        arr_pos = [d for d, k in enumerate(key) if isinstance(k, (_np.ndarray, list))]
+        if arr_pos:
+            # out[.., targets, ..] = value with ONE concrete 1-d integer array: one single-element patch per target
+            if len(arr_pos) > 1 or not isinstance(value, AArr):
+                raise Unsupported("assignment target with more than one integer array")
+            d0 = arr_pos[0]
+            tg = _np.asarray(key[d0])
+            if tg.ndim != 1 or not (value.shape[d0] == len(tg)):
+                raise ValueError(f"shape mismatch: value array of shape {value.shape} could not be broadcast to indexing result")
+            for j, t in enumerate(tg):
+                self.__setitem__(key[:d0] + (slice(int(t), int(t) + 1),) + key[d0 + 1:], make_slice(value, (slice(None),) * d0 + (slice(j, j + 1),)))
+            return
         region = []
         for d, k in enumerate(key):
             if not isinstance(k, slice):
@@ -718,9 +730,62 @@ class View(AArr):
         return View(self.base.field(name), self.dims, self.fixed, self.shape)
 
 
+class Gather(AArr):
+    """advanced indexing with ONE concrete 1-d integer array along dimension `dim` (a copy): out[.., p, ..] = base[.., indices[p], ..]"""
+
+    _owns = True
+    _children = ('base',)
+
+    def __init__(self, base, dim, indices):
+        self.base = base
+        self.dim = dim
+        self.indices = [int(i) for i in indices]
+        shape = tuple(len(self.indices) if d == dim else s for d, s in enumerate(base.shape))
+        super().__init__(shape, base.dtype)
+
+    def _lookup(self, p):
+        if isinstance(p, int):
+            return self.indices[p]
+        r = self.indices[-1]
+        for j in range(len(self.indices) - 2, -1, -1):
+            r = sx.ite(p == j, self.indices[j], r)
+        return r
+
+    def at(self, idx):
+        return self.base.at(tuple(self._lookup(i) if d == self.dim else i for d, i in enumerate(idx)))
+
+    def sum_mult(self, rng, idx, q):
+        if self.dim in rng:
+            first, count, stride = rng[self.dim]
+            total = 0
+            sub = {d: r for d, r in rng.items() if d != self.dim}
+            for j, src in enumerate(self.indices):
+                inside = sx.sand(j >= first, j < first + count * stride, (j - first) % stride == 0) if not (isinstance(stride, int) and stride == 1) else sx.sand(j >= first, j < first + count)
+                bidx = tuple(src if d == self.dim else i for d, i in enumerate(idx))
+                total = total + sx.ite(inside, self.base.sum_mult(sub, bidx, q), 0)
+            return total
+        return self.base.sum_mult(rng, tuple(self._lookup(i) if d == self.dim else i for d, i in enumerate(idx)), q)
+
+
 def make_slice(base, key):
     if not isinstance(key, tuple):
         key = (key,)
+    arr_pos = [i for i, k in enumerate(key) if isinstance(k, (_np.ndarray, list))]
+    if arr_pos:
+        if len(arr_pos) > 1:
+            raise Unsupported("more than one integer-array index on an abstract array")
+        i = arr_pos[0]
+        ind = _np.asarray(key[i])
+        if ind.ndim != 1 or ind.dtype.kind not in "iu":
+            raise Unsupported("integer-array index that is not a 1-d integer array")
+        n_before = sum(1 for k in key[:i] if k is not None and not _isint(k))  # dimension of the result where the array index lands
+        v = make_slice(base, key[:i] + (slice(None),) + key[i + 1:])
+        nd = v.shape[n_before + sum(1 for k in key[:i] if k is None)]
+        ind = [int(j) + (nd if int(j) < 0 else 0) for j in ind] if isinstance(nd, int) else [int(j) for j in ind]
+        for j in ind:
+            if j < 0 or not (j < nd):
+                raise IndexError(f"index {j} is out of bounds for axis with size {nd}")
+        return Gather(v, n_before + sum(1 for k in key[:i] if k is None), ind)
     # ellipsis
     if any(k is Ellipsis for k in key):
         i = [n for n, k in enumerate(key) if k is Ellipsis][0]
@@ -823,6 +888,12 @@ def matmul(a, b):
         shape = a.shape[:-1]
     else:
         shape = broadcast_shapes(a.shape[:-2], b.shape[:-2]) + (a.shape[-2], b.shape[-1])
+    if not LEDGER.on and a.ndim >= 2 and b.ndim >= 2:
+        # provenance: out[.., i, j] = sum_k a[.., i, k] * b[.., k, j]  (the ledger keeps the opaque node: matmul allocates only its result)
+        a_ = make_slice(a, (Ellipsis, None))
+        b_ = make_slice(b, (Ellipsis, None, slice(None), slice(None)))
+        p = Elemwise("multiply", (a_, b_))
+        return Reduce("sum", p, (p.ndim - 2,), False)
     return Opaque(shape, a.dtype, "matmul", (a, b))
 
 
@@ -866,7 +937,9 @@ class _Linalg:
 
     def outer(self, a, b):
         a, b = _lift(a), _lift(b)
-        return Opaque((a.shape[0], b.shape[0]), a.dtype, "outer", (a, b))
+        if a.ndim != 1 or b.ndim != 1:
+            raise ValueError("outer: inputs must be one-dimensional")
+        return Elemwise("multiply", (make_slice(a, (slice(None), None)), make_slice(b, (None, slice(None)))))
 
 
 class Repeat(AArr):
@@ -1115,6 +1188,13 @@ class Namespace:
         n_cols = n_rows if n_cols is None else n_cols
         return Value((n_rows, n_cols), dtype or _np.float64, lambda idx, k=k: sx.ite(idx[1] - idx[0] == k, 1, 0), "eye")
 
+    def full_like(self, x, fill_value, dtype=None, **kw):
+        if not isinstance(x, AArr):
+            return self._real.full_like(x, fill_value, dtype=dtype)
+        shape = kw.get("shape")
+        shape = x.shape if shape is None else ((shape,) if _isint(shape) else tuple(shape))
+        return Const(shape, dtype or x.dtype, "full", fill_value)
+
     def zeros_like(self, x, dtype=None, **kw):
         if not isinstance(x, AArr):
             return self._real.zeros_like(x, dtype=dtype)
@@ -1221,6 +1301,25 @@ class Namespace:
             axis = 0
         axis = axis if axis >= 0 else axis + x.ndim
         return Copy(make_slice(x, (slice(None),) * axis + (indices,)))
+
+    def diff(self, x, axis=-1, n=1, prepend=None, append=None):
+        if not isinstance(x, AArr):
+            return self._real.diff(x, axis=axis, n=n)
+        if prepend is not None or append is not None:
+            raise Unsupported("diff with prepend/append on an abstract array")
+        axis = axis if axis >= 0 else axis + x.ndim
+        for _ in range(sx.conc(n)):
+            if not (x.shape[axis] >= 1):
+                raise ValueError("diff requires input that is at least one dimensional")
+            hi = make_slice(x, (slice(None),) * axis + (slice(1, None),))
+            lo = make_slice(x, (slice(None),) * axis + (slice(None, -1),))
+            x = Elemwise("subtract", (hi, lo))
+        return x
+
+    def vecdot(self, a, b, axis=-1):
+        a, b = _lift(a), _lift(b)
+        prod_ = Elemwise("multiply", (a, b))
+        return Reduce("sum", prod_, _norm_axis(axis, prod_.ndim), False)
 
     def take_along_axis(self, x, indices, axis=-1):
         x, indices = _lift(x), _lift(indices)
